@@ -480,7 +480,9 @@ const MUT_RULE: &str = "every single-character deletion / duplication of every p
 fn main() {
     std::panic::set_hook(Box::new(|_| {}));
     let ctx = Ctx::from_env("C09");
-    watch::start(ctx.root.clone(), ctx.id.clone(), 180);
+    // hang guard: one input may stay current for this long (normal inputs: microseconds to seconds)
+    let limit = std::env::var("C09_WATCHDOG_S").ok().and_then(|s| s.parse().ok()).unwrap_or(ctx.tier.pick(120, 300));
+    watch::start(ctx.root.clone(), ctx.id.clone(), limit);
     if ctx.replay_request().is_some() {
         replay(ctx);
     }
